@@ -66,6 +66,9 @@ class C11(SigProp):
                 owner.setdefault(ch, key)
             elif op["op"] == "accessClass" and out != ["unbound"]:
                 fails.append(f"using a signal through the class did not raise UnboundSignal: {out}")
+            elif op["op"] in ("subscribe", "wait") and op.get("unbound") and out[:1] != ["unbound"]:
+                fails.append(f"listening to a list of signals one of which is used through the class did not raise "
+                             f"UnboundSignal: {out} {[f for f in impl['flags'] if f.startswith('stream %d:' % op['s'])]}")
             elif op["op"] == "dispatch" and op["chan"] is None and out != ["unbound"]:
                 fails.append(f"dispatch through the class did not raise UnboundSignal: {out}")
             elif op["op"] == "dispatch" and op["chan"] is not None:
